@@ -321,7 +321,7 @@ func (w *c09World) apply(e c09Event) (OmegaOutput, bool, string, string) {
 // logical snapshot of the property-relevant state of a world
 func (w *c09World) logical() hcFlat {
 	x := w.Args.AccumulateArgs.ResultContextX
-	f := hcLogical("X", x.PartialState.ServiceAccounts, x.StorageKeyVal, nil)
+	f := hcLogical("X", x.PartialState.ServiceAccounts, x.StorageKeyVal, nil, false)
 	hcRawNormalise(f, "X", w.Reg)
 	return f
 }
